@@ -318,7 +318,9 @@ def run_unit(ctx, unit):
             lines.append("{" + ",".join(parts) + "}")
         args = []
         for k, desc in unit["keys"]:
-            args.append("--sort-by=.k%d%s" % (k, spell_dir(rng, desc)))
+            # the key is an expression like any other: written with a call, with commas between arguments, with a comma in a literal
+            key = rng.choice((".k%d", ".k%d", ".k%d", '(get . "k%d")', "(default .k%d, .k%d)", '(? true .k%d "x, y")', "(| . .k%d)")).replace("%d", str(k))
+            args.append("--sort-by=%s%s" % (key, spell_dir(rng, desc)))
         args += ["--select=.s=s"]
         o = ctx.drv.run(core.Case(args, "\n".join(lines).encode("utf-8")))
         if o.result != "ok":
